@@ -97,6 +97,15 @@ func (c *factCtx) assume(cond ast.Expr, truth bool, at token.Pos) {
 				c.setMin(core.ExprStr(x.Args[0]), len(s), at)
 			}
 		}
+		// a predicate method of the module whose body is `return len(recv.f) > K`
+		// (hasMore, isEmpty, …): the call being true says so about the receiver
+		if truth {
+			if field, min, ok := lenPredicate(c.info, x); ok {
+				if sel, isSel := x.Fun.(*ast.SelectorExpr); isSel {
+					c.setMin(core.ExprStr(sel.X)+"."+field, min, at)
+				}
+			}
+		}
 	}
 	s := core.ExprStr(cond)
 	if truth {
@@ -667,4 +676,59 @@ func (c *factCtx) litFields(ls string, cl *ast.CompositeLit, at token.Pos) {
 			c.f.factPos["make:"+ls+"."+k.Name] = at
 		}
 	}
+}
+
+// lenPredicate recognises a call of a zero-argument method of the module whose
+// whole body is `return len(r.f) > K` (or >= K, != 0): it returns f and the
+// minimum length the true result implies.
+func lenPredicate(info *types.Info, call *ast.CallExpr) (field string, min int, ok bool) {
+	if len(call.Args) != 0 || core.Current == nil {
+		return "", 0, false
+	}
+	fn := core.CalleeFunc(info, call)
+	if fn == nil || fn.Pkg() == nil || !core.IsSource(fn.Pkg().Path()) {
+		return "", 0, false
+	}
+	pk := core.Current.ByPkg[fn.Pkg().Path()]
+	if pk == nil {
+		return "", 0, false
+	}
+	fd := core.DeclOf(pk, fn.Origin())
+	if fd == nil || fd.Body == nil || len(fd.Body.List) != 1 || fd.Recv == nil || len(fd.Recv.List) != 1 || len(fd.Recv.List[0].Names) != 1 {
+		return "", 0, false
+	}
+	ret, isRet := fd.Body.List[0].(*ast.ReturnStmt)
+	if !isRet || len(ret.Results) != 1 {
+		return "", 0, false
+	}
+	b, isBin := core.Unparen(ret.Results[0]).(*ast.BinaryExpr)
+	if !isBin {
+		return "", 0, false
+	}
+	le, isLen := lenArg(pk.TypesInfo, b.X)
+	if !isLen {
+		return "", 0, false
+	}
+	sel, isSel := core.Unparen(le).(*ast.SelectorExpr)
+	if !isSel {
+		return "", 0, false
+	}
+	if id, isID := core.Unparen(sel.X).(*ast.Ident); !isID || id.Name != fd.Recv.List[0].Names[0].Name {
+		return "", 0, false
+	}
+	k, isC := core.ConstInt(pk.TypesInfo, b.Y)
+	if !isC {
+		return "", 0, false
+	}
+	switch b.Op {
+	case token.GTR:
+		return sel.Sel.Name, int(k) + 1, true
+	case token.GEQ:
+		return sel.Sel.Name, int(k), true
+	case token.NEQ:
+		if k == 0 {
+			return sel.Sel.Name, 1, true
+		}
+	}
+	return "", 0, false
 }
